@@ -575,6 +575,24 @@ class Mx:
                     + g(0, 2) * (g(1, 0) * g(2, 1) - g(1, 1) * g(2, 0)))
         raise Unsupported('determinant of %dx%d' % (s.r, s.c))
 
+    def inverse(s):
+        if (s.r, s.c) == (2, 2):
+            d = s.determinant()
+            return Mx(2, 2, [[s.g(1, 1) / d, -s.g(0, 1) / d], [-s.g(1, 0) / d, s.g(0, 0) / d]])
+        if (s.r, s.c) == (3, 3):
+            d = s.determinant()
+            g = s.g
+            def cof(i, j):
+                r = [k for k in range(3) if k != i]
+                c = [k for k in range(3) if k != j]
+                m = g(r[0], c[0]) * g(r[1], c[1]) - g(r[0], c[1]) * g(r[1], c[0])
+                return m if (i + j) % 2 == 0 else -m
+            return Mx(3, 3, [[cof(j, i) / d for j in range(3)] for i in range(3)])      # adjugate / determinant
+        raise Unsupported('inverse of %dx%d' % (s.r, s.c))
+
+    def colwise(s): return MxWise(s, 'col')
+    def rowwise(s): return MxWise(s, 'row')
+
     def value(s): return s.scalar()
 
     def scalar(s):
@@ -584,6 +602,19 @@ class Mx:
 
     def __repr__(s):
         return 'Mx(%s)' % [[s.g(i, j).v for j in range(s.c)] for i in range(s.r)]
+
+
+class MxWise:
+    """Eigen colwise() / rowwise() reductions"""
+    def __init__(s, m, how):
+        s.m, s.how = m, how
+    def _parts(s):
+        return [s.m.col(j) for j in range(s.m.c)] if s.how == 'col' else [s.m.row(i) for i in range(s.m.r)]
+    def _out(s, vals):
+        return Mx(1, len(vals), [list(vals)]) if s.how == 'col' else Mx.vec(vals)
+    def norm(s): return s._out([p.norm() for p in s._parts()])
+    def squaredNorm(s): return s._out([p.squaredNorm() for p in s._parts()])
+    def sum(s): return s._out([p.sum() for p in s._parts()])
 
 
 class MxDiag(Mx):
@@ -1474,6 +1505,14 @@ class Exec:
                 return getattr(obj, name)(*(targs + args))
             if name == 'selfadjointView':
                 return obj.selfadjointViewLower()
+            if name in ('maxCoeff', 'minCoeff') and not args:
+                vals = obj.flat()
+                best = vals[0]
+                for v in vals[1:]:
+                    c = s.compare('>' if name == 'maxCoeff' else '<', v, best)
+                    if s.truth(c):
+                        best = v
+                return best
             if name in ('setZero',):
                 obj.assign(Mx(obj.r, obj.c))
                 return obj
@@ -1489,6 +1528,8 @@ class Exec:
             if hasattr(obj, name):
                 return getattr(obj, name)(*args)
             raise Unsupported('Eigen member %s' % name)
+        if isinstance(obj, MxWise) and hasattr(obj, name):
+            return getattr(obj, name)(*args)
         if isinstance(obj, list):
             if name == 'size': return len(obj)
             if name == 'empty': return len(obj) == 0
@@ -1726,7 +1767,7 @@ def identity(oid, function, clause, lhs, rhs, seed=0, domain=None, guard=None, n
     return Ob(oid, function, clause, 'RVC', be, UNDECIDED, wall, 'normal form non-zero but no numeric witness in %d points (dependent radicals?)' % tried)
 
 
-def logic(oid, function, clause, claim, pc=(), extra=(), timeout_ms=20000, bound=None, witness_vars=None):
+def logic(oid, function, clause, claim, pc=(), extra=(), timeout_ms=20000, bound=None, witness_vars=None, small=()):
     """obligation: base /\\ pc /\\ extra  =>  claim   (z3: negation unsat). claim / extra: z3 expressions or sympy relations"""
     t0 = time.time()
     def z(e):
@@ -1745,6 +1786,12 @@ def logic(oid, function, clause, claim, pc=(), extra=(), timeout_ms=20000, bound
         return Ob(oid, function, clause, 'RVC', be, BOUNDED if bound else PROVED, wall, 'negation unsat', bound=bound)
     if r == z3.sat:
         m = sol.model()
+        if small:       # prefer a witness that is small enough to replay natively
+            sol.push()
+            sol.add(*[z(e) for e in small])
+            if sol.check() == z3.sat:
+                m = sol.model()
+            sol.pop()
         wit = {}
         for d in m.decls():
             if d.arity() == 0:
